@@ -851,6 +851,99 @@ theorem date_parse_spellings :
     ∧ layoutModelled zoneLayout = true ∧ layoutModelled (asc "2006-002") = false := by
   decide +kernel
 
+/-! ## the comparators the model mirrors are the ones in the Go source (round 4)
+
+The translator regenerates, on every run, the control skeleton of each comparator – every `if`
+condition, assignment and `return` expression with its nesting depth.  The tables below are what
+`Rare/Model/C13.lean` mirrors line by line (`byNameSmart`, `byContextualEx`, `byDate` incl. the
+`d0.Equal(d1)` tie rule = `byDateParsed`, `valueSorterEx`, `reverse`, `buildSorter`); a changed guard,
+operator, tie-break or evaluation order in /repo makes this theorem false. -/
+
+theorem comparators_match_source :
+    Gen.C13.byNameSkel = [(0, "return", "a < b")]
+    ∧ Gen.C13.byNameSmartSkel = [
+        (0, "assign", "v0, err0 := strconv.ParseFloat(a, 64)"),
+        (0, "assign", "v1, err1 := strconv.ParseFloat(b, 64)"),
+        (0, "assign", "num0 := err0 == nil && v0 == v0"),
+        (0, "assign", "num1 := err1 == nil && v1 == v1"),
+        (0, "if", "num0 && num1"),
+        (1, "if", "v0 != v1"),
+        (2, "return", "v0 < v1"),
+        (1, "return", "a < b"),
+        (0, "if", "num0 != num1"),
+        (1, "return", "num0"),
+        (0, "return", "a < b")]
+    ∧ Gen.C13.byContextualExSkel = [
+        (0, "decl", "var set sortSet"),
+        (0, "assign", "fallback := false"),
+        (0, "return", "func(a, b string) bool"),
+        (1, "if", "!fallback && set == nil"),
+        (2, "assign", "set = inferSortSetByValue(a)"),
+        (2, "if", "set == nil"),
+        (3, "assign", "fallback = true"),
+        (1, "if", "!fallback"),
+        (2, "assign", "lowerA := strings.ToLower(a)"),
+        (2, "assign", "lowerB := strings.ToLower(b)"),
+        (2, "assign", "v0, ok0 := set[lowerA]"),
+        (2, "assign", "v1, ok1 := set[lowerB]"),
+        (2, "if", "!ok0 || !ok1"),
+        (3, "assign", "fallback = true"),
+        (2, "else", ""),
+        (2, "if", "v0 != v1"),
+        (3, "return", "v0 < v1"),
+        (2, "else", ""),
+        (3, "return", "a < b"),
+        (1, "return", "fallbackSort(a, b)")]
+    ∧ Gen.C13.byContextualSkel = [(0, "return", "ByContextualEx(ByNameSmart)")]
+    ∧ Gen.C13.inferSkel = [
+        (0, "assign", "val = strings.ToLower(val)"),
+        (0, "for", "_, set := range sortSets"),
+        (1, "if", "_, ok := set[val]; ok"),
+        (2, "return", "set"),
+        (0, "return", "nil")]
+    ∧ Gen.C13.byDateSkel = [
+        (0, "assign", "format := \"\""),
+        (0, "assign", "fallback := false"),
+        (0, "return", "func(a, b string) bool"),
+        (1, "if", "!fallback"),
+        (2, "if", "format == \"\""),
+        (3, "decl", "var err error"),
+        (3, "if", "format, err = dateparse.ParseFormat(a); err != nil"),
+        (4, "assign", "fallback = true"),
+        (2, "if", "format != \"\""),
+        (3, "assign", "d0, err0 := time.Parse(format, a)"),
+        (3, "assign", "d1, err1 := time.Parse(format, b)"),
+        (3, "if", "err0 == nil && err1 == nil"),
+        (4, "if", "d0.Equal(d1)"),
+        (5, "return", "a < b"),
+        (4, "return", "d0.Before(d1)"),
+        (3, "else", ""),
+        (4, "assign", "fallback = true"),
+        (1, "return", "fallbackSort(a, b)")]
+    ∧ Gen.C13.byDateWithContextualSkel = [(0, "return", "ByDate(ByContextual())")]
+    ∧ Gen.C13.valueSorterExSkel = [
+        (0, "return", "func(a, b NameValuePair) bool"),
+        (1, "if", "a.Value == b.Value"),
+        (2, "return", "fallback(a.Name, b.Name)"),
+        (1, "return", "a.Value < b.Value")]
+    ∧ Gen.C13.valueNilSorterSkel = [
+        (0, "return", "func(a, b NameValuePair) bool"),
+        (1, "return", "sorter(a.Name, b.Name)")]
+    ∧ Gen.C13.reverseSkel = [
+        (0, "return", "func(a, b TElem) bool"),
+        (1, "return", "!sorter(a, b)")]
+    ∧ Gen.C13.buildSorterSkel = [
+        (0, "assign", "name, reverse, err := parseSort(fullName)"),
+        (0, "if", "err != nil"),
+        (1, "return", "nil, fmt.Errorf(\"error parsing sort: %v\", err)"),
+        (0, "assign", "sorter, err := lookupSorter(name)"),
+        (0, "if", "err != nil"),
+        (1, "return", "nil, fmt.Errorf(\"unknown sort: %s\", name)"),
+        (0, "if", "reverse"),
+        (1, "assign", "sorter = sorting.Reverse(sorter)"),
+        (0, "return", "sorter, nil")] := by
+  refine ⟨by decide, by decide, by decide, by decide, by decide, by decide, by decide, by decide, by decide, by decide, by decide⟩
+
 /-! ## non-vacuity -/
 
 /-- The assumed `sort.Sort` contract is satisfiable: insertion sort, written as a comparison tree,
